@@ -1,4 +1,7 @@
-"""C18 — f80 arithmetic is correctly rounded; comparisons follow IEEE order (engine: x87sym over SMT-LIB FloatingPoint(15,64))."""
+"""C18 — f80 arithmetic is correctly rounded; comparisons follow IEEE order.
+Engine: the Rust glue runs on the MIR (mirsym), every asm! terminator is interpreted by x87sym over SMT-LIB FloatingPoint(15,64);
+if the MIR route meets something it does not model, the older source-level reader of x87sym (regex over asm! blocks + a small glue
+grammar) is tried before the run is declared inconclusive."""
 import os, sys, time, json, subprocess, struct, itertools, hashlib
 VERIF = os.path.dirname(os.path.dirname(os.path.dirname(os.path.abspath(__file__))))
 sys.path.insert(0, VERIF)
@@ -9,14 +12,16 @@ from x87.x87sym import F80Model, F80, F64, RNE, Unsupported
 BUILD = os.path.join(_k.BUILD, "C18")
 
 META = {
-    "functions_encoded": ["every asm! template of rlib/f80/src/lib.rs (binary/unary operator macros and their 5 instances, lt, min, max, From<f64>, From<f80>) parsed from the source on each run",
-                          "Rust glue: gt, le, ge, partial_cmp, abs, PartialEq (derived byte-wise or hand-written)"],
+    "functions_encoded": ["MIR of rlib_f80 (dumped on each run): add, sub, mul, div, neg, eq, lt, gt, le, ge, partial_cmp, abs, min, max, From<f64> for f80, From<f80> for f64 and whatever private helpers they call — the Rust glue is executed by mirsym",
+                          "every asm! terminator reached (template after macro expansion, operands as MIR values) interpreted by x87sym; fallback when the MIR route meets an unmodelled construct: asm! blocks and a small glue grammar read from the source"],
     "bounds": {"quick": "all pairs of f64 bit patterns (2^128 operand pairs: zeros, subnormals, infinities, NaN included), one operation each; all f80 values for the narrowing conversion",
                "thorough": "same obligations, additionally re-answered by cvc5 where it terminates within the cap"},
     "outside_claim": ["chains of operations (each single operation correctly rounded => chains are, by composition)", "Display/Debug/Show", "x87 control word other than the default (extended precision, round-to-nearest-even)",
                       "NaN payloads and the sign of NaN (SMT-LIB has a single NaN)", "pseudo-denormal/unnormal encodings (not producible from f64 operands)"],
     "stubs_and_assumes": ["instruction semantics table (about 20 x87 instructions) = SMT-LIB fp.add/sub/mul/div RNE, fp.neg, fcomi/fucomi flags per the Intel SDM incl. unordered = ZF,PF,CF all set",
-                          "any instruction or glue shape outside the modelled subset aborts the run as inconclusive"],
+                          "any instruction or glue shape outside the modelled subset aborts the run as inconclusive",
+                          "an f80 in memory = its FloatingPoint(15,64) value; bytes are derived on demand (sign | exponent | explicit integer bit | fraction); a NaN's bytes are a quiet NaN with arbitrary sign and payload; decoding bytes assumes a canonical encoding (integer bit consistent with the exponent)",
+                          "a register the template writes only partly (seta al with out(\"ax\")) has fresh, unconstrained upper bits; MaybeUninit::assume_init of memory the template did not write is inconclusive"],
     "assumptions": ["the SMT-LIB FloatingPoint(15,64) theory as implemented by z3 matches x87 extended-precision arithmetic (validated per run against the real FPU on a boundary set)"],
 }
 
@@ -211,14 +216,33 @@ def run_engine(tier, seed, known, only):
     try:
         exe = build_native()
         src = open(src_path).read()
-        M = F80Model(src)
         a64, b64 = z3.FP("a", F64), z3.FP("b", F64)
-        T = Terms(M, a64, b64)
-        obs = f80_obligations(T, a64, b64)
+        from mirsym import core as _core
+        from mirsym.f80_check import MirF80Model
+        route = "MIR (mirsym glue + x87sym asm)"
+        try:
+            mir = _core.dump_mir(_k.REPO, "rlib/f80", os.path.join(BUILD, "mir"), False, "rel")
+            M = MirF80Model(mir)
+            T = Terms(M, a64, b64)
+            obs = f80_obligations(T, a64, b64)
+        except (_core.Unsupported, _core.PathLimit) as e1:
+            route = "source (x87sym regex reader); the MIR route stopped at: %s" % e1
+            try:
+                M = F80Model(src)
+                T = Terms(M, a64, b64)
+                obs = f80_obligations(T, a64, b64)
+            except Unsupported as e2:
+                raise Unsupported("MIR route: %s; source route: %s" % (e1, e2))
+            except (KeyError, TypeError, AttributeError, IndexError) as e2:
+                raise Unsupported("MIR route: %s; source route crashed on an unexpected shape: %r" % (e1, e2))
+        if getattr(M, "panic_conds", None):
+            obs.append(dict(name="no-panic", role="panic", claim=z3.Not(z3.Or([c for _, c, _ in M.panic_conds])), key="panic",
+                            desc="no operation panics for any operand pair (%s)" % ", ".join(sorted({f for f, _, _ in M.panic_conds}))))
     except Unsupported as e:
         out["inconclusive"].append({"obligation": "encoding", "reason": "x87sym: %s" % e})
         return out
-    META["functions_encoded_this_run"] = sorted(set(M.encoded))
+    print("  [C18] route: %s" % route, flush=True)
+    META["functions_encoded_this_run"] = sorted(set(M.encoded)) + ["route: " + route] + (["asm templates (from the MIR): " + " || ".join(sorted(set(M.P.asm_templates)))] if hasattr(M, "P") else [])
     # ---- model validation against the real FPU
     pairs = list(itertools.product(BOUNDARY, repeat=2))
     if tier == "quick":
